@@ -83,7 +83,7 @@ def expected(cfg):
     if fn in ("avc", "avc_graph"):
         prim = (arg if arg is not None else gp) and not cfg.get("acyclic", False)
         exp["native_connected"], exp["native_division"] = bool(prim), False
-    elif fn == "division":
+    elif fn in ("division", "single_loop"):
         exp["native_connected"], exp["native_division"] = bool(gp), False
     elif fn in ("cycle", "crossable"):
         exp["native_connected"], exp["native_division"] = bool(arg if arg is not None else gp), False
@@ -126,7 +126,7 @@ def gen_cfg(rng):
     if rng.random() < 0.2:
         post["use_graph_division_primitive"] = rng.random() < 0.5
     cfg["post"] = post
-    cfg["fn"] = rng.choice(["avc", "avc", "avc_graph", "division", "cycle", "crossable", "borders", "plain"])
+    cfg["fn"] = rng.choice(["avc", "avc", "avc_graph", "division", "cycle", "single_loop", "crossable", "borders", "plain"])
     cfg["acyclic"] = cfg["fn"] in ("avc", "avc_graph") and rng.random() < 0.4
     cfg["prim_arg"] = rng.choice([None, None, True, False]) if cfg["fn"] in ("avc", "avc_graph", "cycle", "crossable", "borders") else None
     cfg["backend_arg"] = rng.choice([None, None, None] + NAMES + ["nope", "CLASS:z3", "CLASS:cspuz_core"])
